@@ -134,7 +134,7 @@ func streamLTrace(c *corrOut, r *rng, n int, thorough bool) map[string]interface
 	}
 	defer func() { tea.VerifPauseHook = nil; traceExt = nil }()
 	causes := []string{"quitmsg", "quitapi", "interrupt", "kill", "ctx", "readerr", "panic-update", "panic-view", "panic-init"}
-	strikes := []string{"idle", "in-update", "in-view", "in-writer", "in-init", "first-view", "startup-write", "pre-cancel"}
+	strikes := []string{"idle", "in-update", "in-view", "in-writer", "in-init", "first-view", "startup-write", "pre-cancel", "in-exec"}
 	pendings := []string{"none", "senders1", "second-quit", "second-kill", "initcmd"}
 	inputs := []string{"nil", "blocking", "pipe"}
 	var all []termScenario
@@ -175,7 +175,11 @@ func streamLTrace(c *corrOut, r *rng, n int, thorough bool) map[string]interface
 		if s.Pending == "initcmd" {
 			spare = 1 // the Init command's own message, sent by a command goroutine the harness does not see
 		}
-		cfg := fmt.Sprintf("cancelable=%t initcmd=%t input=%t senders=%s spare=%d", s.Input == "pipe", s.Pending == "initcmd" || s.Pending == "neverinit", s.Input != "nil" || s.Cause == "readerr",
+		spareExec := 0
+		if s.Strike == "in-exec" {
+			spareExec = 1 // the exec message: produced by the command Update returned, sent by its goroutine
+		}
+		cfg := fmt.Sprintf("spareexec=%d cancelable=%t initcmd=%t input=%t senders=%s spare=%d", spareExec, s.Input == "pipe", s.Pending == "initcmd" || s.Pending == "neverinit", s.Input != "nil" || s.Cause == "readerr",
 			strings.Join(append([]string{"-"}, senders...), ","), spare)
 		c.emit(cfg+" | "+strings.Join(tokens, " "), "accepted", s.Cause+"/"+s.Strike)
 	}
